@@ -5,7 +5,9 @@ from core import hx, unhx
 
 LEAN_MODULE = 'QM.Props.C12'
 THEOREMS = ['Inst.C12_dirlink_parts', 'Inst.C12_dirlink_inside', 'Inst.C12_alias_inside', 'Inst.C12_alias_string', 'Inst.C12_resolves', 'Inst.C12_target_parts',
-            'Inst.C12_template_without_default', 'Inst.C12_slash_names_ignored', 'Inst.C12_no_default_instance_with_slash']
+            'Inst.C12_template_without_default', 'Inst.C12_slash_names_ignored', 'Inst.C12_no_default_instance_with_slash',
+            'Inst.C12_blocked_link_no_effect', 'Inst.C12_failed_link_does_not_stop_the_rest', 'Inst.C12_links_stay', 'Inst.C12_links_stay_all', 'Inst.C12_made_subset_plan',
+            'Inst.C12_top_level_never_blocked']
 ASSUMPTIONS = [
     'Inst.linkPaths / Inst.target model enable_service_file (main.rs); tied to the code by running the real function through the hook on a scratch output directory and comparing the links it created (path and target) with the model\'s plan',
     'containment is lexical over an output directory that holds no symlinks leading elsewhere; the file-system effects themselves (create_dir_all, remove_file, symlink) are runtime behaviour and are checked on real runs with a full before/after snapshot of a sandbox that contains the output directory and decoy files beside it',
@@ -14,7 +16,10 @@ LEVEL_TEXT = ('Proof (link planning) + end-to-end check (effects): Lean theorems
               'exactly the two parts <unit>.wants|.requires / <service> and no ".." part; an Alias accepted by the test on the cleaned *string* is relative and every part of it, as the kernel resolves the path, is a plain '
               'name — no "..", "." or empty part (C12_alias_string: components → clean stack → rendering → parts, for every string); names with a '
               'path separator contribute nothing; a template without (usable) DefaultInstance gets no WantedBy/RequiredBy links; the relative target '
-              '"../"×depth + service resolves to OUT/<service> for every output directory and nesting depth (induction over the parts). The effects '
+              '"../"×depth + service resolves to OUT/<service> for every output directory and nesting depth (induction over the parts). Carrying the '
+              'plan out (Inst.carryOut: links one after the other on an abstract output directory): a link that cannot be made changes nothing, '
+              'so the links after it are made as if it had not been asked for; what was made stays; only links of the plan are made; a link '
+              'directly in the output directory is never blocked. The effects '
               'on the file system are partial with respect to the runtime: they are checked on real runs with decoy files and realpath of every link.')
 LEVEL_NOTE = 'Trusted: Lean kernel; correspondence of the link plan; e2e snapshots for the actual file-system effects (symlinks already present inside OUT are outside the property\'s quantifier).'
 TECHNIQUE = 'Lean 4 proofs about the link plan (containment, depth arithmetic) + correspondence with the real function + sandbox snapshots with decoys'
@@ -75,7 +80,8 @@ def correspond(ctx):
         ops.append(f'enable\t{hx(out)}\t{hx(os.path.join(out, svc))}\t{hx(text)}')
     io = ctx.impl(ops)
     mo = ctx.model([f'plan_links\t{hx(svc)}\t{hx(text)}' for svc, text in cases])
-    for i, ((svc, text), a, b) in enumerate(zip(cases, io, mo)):
+    made_model = ctx.model([f'made_links\t{hx(svc)}\t{hx(text)}' for svc, text in cases])
+    for i, ((svc, text), a, b, mm) in enumerate(zip(cases, io, mo, made_model)):
         res.corr_ops += 1
         res.corr_by_op['enable'] = res.corr_by_op.get('enable', 0) + 1
         out = os.path.join(base, str(i))
@@ -90,7 +96,13 @@ def correspond(ctx):
         # a link whose directory cannot be created (a file is in the way) is skipped by the code with a warning: compare the rest
         # a link that cannot be made (a non-directory on its parent path, a directory under its own name) is skipped by the code
         # with a warning: the plan is carried out in order on the abstract directory (creatable) and compared with what exists
-        made = creatable(svc, list(want))
+        # (carried out by the model: Inst.carryOut, about which C12_failed_link_does_not_stop_the_rest, C12_links_stay, … are proved;
+        # the Python `creatable` of the oracle is a second, independent statement of the same — the two must agree as well)
+        made = {posixpath.normpath(unhx(x)) for x in mm[4:-1].split(' ') if x} if mm.startswith('ok [') else None
+        if made is not None and made != creatable(svc, list(want)):
+            res.corr_disagreements.append(dict(op=ops[i], op_readable=f'made_links {svc!r} {text!r}', impl=f'python creatable: {sorted(creatable(svc, list(want)))}', model=f'{sorted(made)}'))
+        if made is None:
+            made = creatable(svc, list(want))
         if a != 'ok' or {k: v for k, v in want.items() if k in made} != got:
             if len(res.corr_disagreements) < 20:
                 res.corr_disagreements.append(dict(op=ops[i], op_readable=f'enable {svc!r} {text!r}', impl=f'{a} links={got}', model=f'{want}'))
